@@ -121,11 +121,15 @@ impl<Body> AmendedRequest<Body> {
     }
 
     pub fn headers(&self) -> impl Iterator<Item = (&HeaderName, &HeaderValue)> {
-        self.headers
+        // Only headers inherited from the original request are unset,
+        // never the ones amended for this request.
+        let inherited = self
+            .request
+            .headers()
             .iter()
-            .map(|v| (&v.0, &v.1))
-            .chain(self.request.headers().iter())
-            .filter(|v| !self.unset.iter().any(|x| x == v.0))
+            .filter(|v| !self.unset.iter().any(|x| x == v.0));
+
+        self.headers.iter().map(|v| (&v.0, &v.1)).chain(inherited)
     }
 
     fn headers_get_all(&self, key: &'static str) -> impl Iterator<Item = &HeaderValue> {
